@@ -10,9 +10,11 @@ git apply "$PATCH" || { echo "CONFIRM: patch does not apply"; exit 1; }
 if ! cargo test --workspace --offline >"$WT/out/confirm-existing.log" 2>&1; then echo "CONFIRM: existing tests FAIL with patch"; git checkout -q -- .; exit 1; fi
 echo "CONFIRM: builds, existing tests green with patch"
 mkdir -p "$(dirname "$DEST")"; cp "$DEMO" "$DEST"
+DEV="$WT/out/cargo_dev.diff"; [ -f "$DEV" ] && git apply "$DEV"
 [ "$RF" != "-" ] && export RUSTFLAGS="$RF"
 if timeout 600 cargo test --offline "$@" >"$WT/out/confirm-demo-with.log" 2>&1; then echo "CONFIRM: demo PASSES with patch (bad)"; R=1; else echo "CONFIRM: demo fails with patch (good)"; R=0; fi
 git checkout -q -- .
+[ -f "$DEV" ] && git apply "$DEV"
 if timeout 600 cargo test --offline "$@" >"$WT/out/confirm-demo-without.log" 2>&1; then echo "CONFIRM: demo passes without patch (good)"; else echo "CONFIRM: demo FAILS without patch (bad)"; R=1; fi
-rm -f "$DEST"; git clean -qfd -e out -e target >/dev/null
+git checkout -q -- .; rm -f "$DEST"; git clean -qfd -e out -e target >/dev/null
 exit $R
